@@ -154,14 +154,8 @@ fn windows_k(ctx: &mut Ctx) {
     let cfg: ApodizationConfig = w.clone().into();
     let back: Apodization = cfg.clone().into();
     ctx.k("apod_cfg", &apod_wire(&w), &apod_wire(&back));
-    // the statement's mapping clause: kind and parameters survive (Gaussian within rounding of the µm conversion)
-    let ok = match (&w, &back) {
-      (Apodization::Gaussian { fwhm: a }, Apodization::Gaussian { fwhm: b }) => {
-        let (a, b) = (*(*a / M), *(*b / M));
-        (a - b).abs() <= 1e-14 * a.abs()
-      }
-      (x, y) => x == y,
-    };
+    // window kinds map onto the same kind in both directions (parameters are tied by the K op above)
+    let ok = back.kind() == w.kind();
     let cfg_kind_ok = match (&w, &cfg) {
       (Apodization::Off, ApodizationConfig::Off)
       | (Apodization::Gaussian { .. }, ApodizationConfig::Gaussian { .. })
